@@ -49,6 +49,10 @@ def declare(node, sig):
     sig("aws_gen_calls", c_long, c_long)
     sig("aws_virtual", c_long, c_long, c_long, c_char_p)
     sig("aws_materialise", c_long, c_long)
+    sig("aws_lb_new", c_long, c_char_p, c_long, c_double)
+    sig("aws_lb_cmd", c_int, c_long, c_int, c_long, c_double, c_double, c_char_p, c_long)
+    sig("aws_lb_snapshot", c_long, c_long)
+    sig("aws_lb_text", c_long, c_long, c_int, c_char_p, c_long)
     sig("aws_part", c_long, POINTER(c_long), POINTER(c_long), c_int)
     sig("aws_part_op", c_long, c_long, c_int, POINTER(c_long), c_int)
     sig("aws_part_text", c_long, c_long, c_int, c_char_p, c_long)
@@ -242,6 +246,23 @@ class Mixin:
 
     def virtual(self, gen, cache, key):
         return self._h(self.lib.aws_virtual(gen, cache, key.encode()))
+
+    # ---------------------------------------------------------------- LayoutBuilder
+    LB = {"null": 0, "boolean": 1, "int64": 2, "float64": 3, "complex": 4, "string": 5, "bytestring": 6, "begin_list": 7,
+          "end_list": 8, "index": 9, "tag": 10}
+
+    def lb_new(self, form_json, initial, resize):
+        return self._h(self.lib.aws_lb_new(form_json.encode("utf-8"), initial, resize))
+
+    def lb_cmd(self, h, name, i=0, d=0.0, d2=0.0, s=b""):
+        if not self.lib.aws_lb_cmd(h, self.LB[name], i, d, d2, s, len(s)):
+            self.raise_last()
+
+    def lb_snapshot(self, h):
+        return self._h(self.lib.aws_lb_snapshot(h))
+
+    def lb_text(self, h, what):
+        return self.text_call(self.lib.aws_lb_text, h, what)
 
     def materialise(self, h):
         """the same tree with every VirtualArray replaced by what it stands for; no cache or generator is touched"""
